@@ -1814,6 +1814,10 @@ func runGroup() {
 			p := loadGroupPkg("kzg_"+lc, "ecc/"+c+"/kzg", "kzg.go")
 			extra := p.checkNewSRSLines()
 			p.translate("Verify", nil)
+			// the empty batch: both batch verifiers answer ErrZeroNbDigests before anything is computed
+			p.translate("FoldProof", []int{0, 0})
+			p.translate("BatchVerifySinglePoint", []int{0, 0})
+			p.translate("BatchVerifyMultiPoints", []int{0, 0, 0})
 			for k := 1; k <= 4; k++ {
 				p.translate("fold", []int{k, k, k})
 				p.translate("FoldProof", []int{k, k})
